@@ -10,6 +10,7 @@ import CSD.Driver.Comp
 import CSD.Driver.Kinds
 import CSD.Driver.Check
 import CSD.Driver.Chunks
+import CSD.Driver.FMCheck
 
 open CSD CSD.Driver
 
@@ -27,6 +28,7 @@ def runCase (c : Case) : IO Unit := do
   | "sweep" => runSweep c emit
   | "dacimg" => runDacImg c emit
   | "hhf" => runHhf c emit
+  | "fm" => runFmStream c emit
   | _ => emit 1 s!"ERR unknown-stream {c.stream}"
 
 partial def loop (h : IO.FS.Stream) (cur : Option Case) : IO Unit := do
